@@ -79,3 +79,62 @@ func VerifC16Dispatcher() {
 		zzverif.Reach("C16.dispatcher.all-delivered")
 	}
 }
+
+type c17dConn struct {
+	c16Conn
+	errAt   int   // index of the script position at which the reader fails
+	err     error // the failure
+	readsOK int
+}
+
+func c17dStubReadMsg(r io.Reader) (Message, error) {
+	c := r.(*c17dConn)
+	if c.pos == c.errAt && c.err != nil {
+		e := c.err
+		c.err = nil // the bytes after the bad frame head are still in the stream: a further read would parse them
+		return nil, e
+	}
+	if c.pos >= len(c.script) {
+		return nil, io.EOF
+	}
+	m := c.script[c.pos]
+	c.pos++
+	c.readsOK++
+	return m, nil
+}
+
+// VerifC17DispatcherBadFrame: a frame the codec rejects (unknown type byte, length beyond the limit,
+// negative length, undecodable body) ends the session at that frame: the dispatcher reports done and
+// nothing that follows in the stream (e.g. a well-formed frame embedded in the rejected body) is
+// ever dispatched.
+func VerifC17DispatcherBadFrame() {
+	before := zzverif.Choice("goodBefore", 3)
+	after := 1 + zzverif.Choice("embeddedAfter", 2)
+	conn := &c17dConn{errAt: before}
+	conn.failFrom = 1 << 30
+	for i := 0; i < before+after; i++ {
+		conn.script = append(conn.script, &CloseProxy{ProxyName: "victim"})
+	}
+	switch zzverif.Choice("rejection", 4) {
+	case 0:
+		conn.err = jsonMsgErrMsgType()
+	case 1:
+		conn.err = jsonMsgErrMaxLen()
+	case 2:
+		conn.err = jsonMsgErrFormat()
+	default:
+		conn.err = errors.New("invalid character 'x' looking for beginning of value")
+	}
+	d := NewDispatcher(conn)
+	handled := 0
+	d.RegisterHandler(&CloseProxy{}, func(Message) { handled++ })
+	d.Run()
+	zzverif.Quiesce()
+	select {
+	case <-d.Done():
+		zzverif.Reach("C17.badframe.session-ended")
+	default:
+		zzverif.Fail("C17.badframe.rejected-frame-ends-the-session")
+	}
+	zzverif.Assert(handled == before, "C17.badframe.nothing-after-the-rejected-frame-is-dispatched")
+}
